@@ -728,6 +728,14 @@ class World:
         for fi, obj in expected_full.items():
             if world._fullid_lookup[full_uuid(fi)] is not obj:
                 raise Failure(self._key("index/agreement"), "lookup by local id and lookup by full id give the same object", "full id %s" % full_uuid(fi))
+            # a region's own lookup by full id knows its own objects only (local ids are unique per region, not across regions)
+            for r in (0, 1):
+                got = self.regions[r].objects.lookup_fullid(full_uuid(fi))
+                want = obj if model.objs[fi][0] == r else None
+                if got is not want:
+                    raise Failure(self._key("index/agreement"), "a region's lookup by full id gives that region's object, and nothing for an object of another region",
+                                  "region %d asked for full id %s (an object of region %r): got %s"
+                                  % (HANDLES[r], full_uuid(fi), model.objs[fi][0], "nothing" if got is None else "local %r of region %r" % (got.LocalID, got.RegionHandle)))
 
     def _check_futures(self, eff, pre_keys):
         keep = []
